@@ -391,19 +391,31 @@ def o7(ctx, rep):
         eq_edge = t["else"]
     if ne_edge is None:
         ne_edge = t["else"]
-    redo_sites = []
-    for b, tt in body.calls():
-        c = tt.get("callee") or ""
-        if c.endswith("WalBlobReader::read_entry") or c.endswith("MetaMap::set_full") or c.endswith("MetaMap::set_tombstone"):
-            redo_sites.append((b, c, tt.get("ln")))
-    for e in ctx.model.ev_by_body.get(body.id, []):
-        if e.kind == "write" and e.cls == "ht":
-            redo_sites.append((e.bb, "write(ht)", e.site))
+    region = owned_region(ctx.facts, body.id)
+    redo_sites = []  # (block IN recover through which the site is reached, what, site)
+    for rb in [body] + [ctx.facts.bodies[x] for x in sorted(region)]:
+        local = []
+        for b, tt in rb.calls():
+            c = tt.get("callee") or ""
+            if c.endswith("WalBlobReader::read_entry") or c.endswith("MetaMap::set_full") or c.endswith("MetaMap::set_tombstone"):
+                local.append((b, c, tt.get("ln")))
+        for e in ctx.model.ev_by_body.get(rb.id, []):
+            if e.kind == "write" and e.cls == "ht":
+                local.append((e.bb, "write(ht)", e.site))
+        for (b, c, site) in local:
+            if rb.id == body.id:
+                redo_sites.append((b, c, site))
+            else:
+                ebs = entry_blocks(ctx.facts, body, rb.id.split("::{closure")[0], region)
+                if not ebs:
+                    redo_sites.append((None, c, site))
+                for eb in ebs:
+                    redo_sites.append((eb, c + " via " + short(rb.id), site))
     reach_ne = body.reachable([ne_edge])
     n = 1
     for (b, c, site) in redo_sites:
         n += 1
-        ok = body.dominates(sw, b) and b not in reach_ne and b in body.reachable([eq_edge])
+        ok = b is not None and body.dominates(sw, b) and b not in reach_ne and b in body.reachable([eq_edge])
         rep.check(ok, "O7", fn, "redo|%s" % short(c), "%s at %s is not confined to the branch on which the WAL's sequence number equals the meta page's: a stale WAL could be re-applied" % (short(c), site), site=site, detail="%s at %s only on the `==` edge of the gate at %s" % (short(c), site, ln))
     rep.floor("O7 redo sites", len(redo_sites), 5)
     # the not-equal edge discards: reaches truncate_wal and returns without redo
@@ -570,11 +582,67 @@ for _k in ("ln", "bbn"):
     ALLOWED[_k] = ALLOWED["lnbbn"]
 
 
-def w1_allowed(cls, fn, kind):
+def owned_region(facts, entry):
+    """functions of the entry's module that are reachable only through `entry` (its private phases / helpers), closures
+    included: a function is owned when every caller is the entry or an owned function"""
+    cache = getattr(facts, "_owned", None)
+    if cache is None:
+        cache = facts._owned = {}
+    if entry in cache:
+        return cache[entry]
+    mod = entry.rsplit("::", 1)[0] + "::"
+    owned = set()
+    changed = True
+    while changed:
+        changed = False
+        for body in facts.bodies.values():
+            fid = body.id
+            if fid in owned or fid == entry or not fid.startswith(mod):
+                continue
+            if body.kind == "Closure":
+                par = body.parent
+                if par == entry or par in owned:
+                    owned.add(fid)
+                    changed = True
+                continue
+            callers = [c[0] for c in facts.callers().get(fid, []) if c[2] in ("call", "candidate")]
+            if callers and all(c == entry or c in owned for c in callers):
+                owned.add(fid)
+                changed = True
+    cache[entry] = owned
+    return owned
+
+
+def entry_blocks(facts, entry_body, target_fn, region):
+    """blocks of the entry function whose call leads (through owned functions only) to target_fn"""
+    out = []
+    for b, t in entry_body.calls():
+        c = t.get("callee") or ""
+        seen, st = set(), [c]
+        while st:
+            cur = st.pop()
+            if cur in seen:
+                continue
+            seen.add(cur)
+            if cur == target_fn or cur.split("::{closure")[0] == target_fn:
+                out.append(b)
+                break
+            if cur in region and cur in facts.bodies:
+                for (_b, cc, _t, _k) in facts.callees(facts.bodies[cur]):
+                    st.append(cc)
+    return out
+
+
+def w1_allowed(cls, fn, kind, facts=None):
     root = fn.split("::{closure")[0]
     for (prefix, kinds, reason) in ALLOWED.get(cls, []):
-        if root.startswith(prefix) and (kinds is None or kind in kinds):
+        if kinds is not None and kind not in kinds:
+            continue
+        if root.startswith(prefix):
             return reason
+        # a private phase / helper of an allowed function (reachable only through it)
+        if facts is not None and prefix in facts.bodies and root in owned_region(facts, prefix):
+            return reason + " (private helper of %s)" % prefix.split("::", 1)[1]
     return None
 
 
@@ -621,7 +689,7 @@ def w1(ctx, rep):
         if cls == "?":
             rep.violation("W1", short(fn), "%s(?)" % e.kind, "a %s at %s acts on a file whose class cannot be determined (fail closed)" % (e.kind, e.site), site=e.site)
             continue
-        reason = w1_allowed(cls, fn, e.kind)
+        reason = w1_allowed(cls, fn, e.kind, ctx.facts)
         rep.check(
             reason is not None, "W1", short(fn), "%s(%s)" % (e.kind, cls),
             "%s of the %s file at %s happens in %s, outside the modules allowed to modify that file class (%s)" % (e.kind, cls, e.site, short(fn), ", ".join(p for (p, k, r) in ALLOWED.get(cls, []))),
@@ -976,8 +1044,8 @@ def o12(ctx, rep):
     mutated but unwritten map page makes the file disagree with the state the commit / recovery stands for."""
     n = 0
     m = ctx.model
-    for fn in ("nomt::bitbox::DB::prepare_sync", "nomt::bitbox::recover"):
-        body = ctx.facts.body(fn)
+    total_muts = {}
+    for (fn, body) in [(e, b) for e in ("nomt::bitbox::DB::prepare_sync", "nomt::bitbox::recover") for b in [ctx.facts.body(e)] + [ctx.facts.bodies[x] for x in sorted(owned_region(ctx.facts, e)) if ctx.facts.bodies[x].kind != "Closure"]]:
         muts = [(b, t) for b, t in body.calls() if (t.get("callee") or "") in ("nomt::bitbox::meta_map::MetaMap::set_tombstone", "nomt::bitbox::meta_map::MetaMap::set_full")]
         queues = []
         for b, t in body.calls():
@@ -985,7 +1053,7 @@ def o12(ctx, rep):
             if c.endswith("HashSet::insert") or c.endswith("HashSet::<T, S>::insert") or (c.endswith("::insert") and "hash" in c.lower()):
                 if len(t["args"]) > 1 and any(r.kind == "call" and r.what.endswith("MetaMap::page_index") for r in trace(body, t["args"][1])):
                     queues.append(b)
-        rep.floor("O12 occupancy-map mutation sites in %s" % short(fn), len(muts), 2)
+        total_muts[fn] = total_muts.get(fn, 0) + len(muts)
         loops = m.loops(body)
         rem = set(body.ok_removed()) | set(queues)
         for (b, t) in muts:
@@ -998,5 +1066,7 @@ def o12(ctx, rep):
             targets = set(body.return_blocks()) | ({inner} if inner is not None else set())
             reach = body.reachable(body.succ(b), rem)
             ok = not (reach & targets)
-            rep.check(ok, "O12", short(fn), "%s=>queue-meta-page" % t["callee"].split("::")[-1], "after %s at %s a path reaches the next iteration / return without queueing the bucket's meta page for writeout: the hash-table file would keep the old occupancy byte" % (t["callee"].split("::")[-1], t.get("ln")), site=t.get("ln"), detail="%s at %s is followed on every path by insert(page_index(bucket))" % (t["callee"].split("::")[-1], t.get("ln")))
+            rep.check(ok, "O12", short(body.id), "%s=>queue-meta-page" % t["callee"].split("::")[-1], "after %s at %s a path reaches the next iteration / return without queueing the bucket's meta page for writeout: the hash-table file would keep the old occupancy byte" % (t["callee"].split("::")[-1], t.get("ln")), site=t.get("ln"), detail="%s at %s is followed on every path by insert(page_index(bucket))" % (t["callee"].split("::")[-1], t.get("ln")))
+    for fn, k in sorted(total_muts.items()):
+        rep.floor("O12 occupancy-map mutation sites in %s (and its private helpers)" % short(fn), k, 2)
     return n
